@@ -124,7 +124,7 @@ func (ex *Exec) extractByte(v Value, d int) *Term {
 	case nil:
 		return mkConst(8, 0)
 	}
-	panic(pathEnd{stOutOfModel, fmt.Sprintf("byte access to non-numeric cell (%T)", v)})
+	panic(pathEnd{stOutOfModel, fmt.Sprintf("byte access to non-numeric cell (%T) in %s", v, ex.where())})
 }
 
 func (ex *Exec) byteAt(o *Object, off int64) *Term {
@@ -408,6 +408,21 @@ func (ex *Exec) sparseCands(o *Object, n int, align int64) []int64 {
 	return append(offs, -1-bg)
 }
 
+// tryLoadNumC is loadNumC that reports (nil,false) instead of aborting when
+// the bytes belong to a non-numeric cell.
+func (ex *Exec) tryLoadNumC(o *Object, off int64, n int) (v Value, ok bool) {
+	defer func() {
+		if r := recover(); r != nil {
+			if pe, isPE := r.(pathEnd); isPE && pe.status == stOutOfModel {
+				v, ok = nil, false
+				return
+			}
+			panic(r)
+		}
+	}()
+	return ex.loadNumC(o, off, n), true
+}
+
 // loadThroughLog reads an object that carries a symbolic write log.
 func (ex *Exec) loadThroughLog(o *Object, p Ptr, n int) (Value, bool) {
 	if alignOf(p.off) < int64(n) || o.dead {
@@ -499,7 +514,15 @@ func (ex *Exec) loadNum(p Ptr, n int) Value {
 	}
 	var res *Term
 	for i := len(cands) - 1; i >= 0; i-- {
-		v, ok := ex.loadNumC(o, cands[i], n).(*Term)
+		cv, numeric := ex.tryLoadNumC(o, cands[i], n)
+		if !numeric {
+			// a pointer-holding slot: skip it when the offset cannot point there
+			if r, _ := ex.query(ex.st.Eq(p.off, c64(cands[i]))); r == "unsat" {
+				continue
+			}
+			return ex.loadNumC(o, int64(ex.concretize(p.off)), n)
+		}
+		v, ok := cv.(*Term)
 		if !ok {
 			return ex.loadNumC(o, int64(ex.concretize(p.off)), n)
 		}
@@ -576,7 +599,15 @@ func (ex *Exec) storeNum(p Ptr, n int, v Value) {
 	}
 	olds := make([]*Term, len(cands))
 	for i, k := range cands {
-		ov, ok := ex.loadNumC(o, k, n).(*Term)
+		cv, numeric := ex.tryLoadNumC(o, k, n)
+		if !numeric {
+			if r, _ := ex.query(ex.st.Eq(p.off, c64(k))); r == "unsat" {
+				continue // pointer slot the offset cannot reach
+			}
+			ex.storeCellC(o, int64(ex.concretize(p.off)), n, v)
+			return
+		}
+		ov, ok := cv.(*Term)
 		if !ok {
 			ex.storeCellC(o, int64(ex.concretize(p.off)), n, v)
 			return
@@ -584,6 +615,9 @@ func (ex *Exec) storeNum(p Ptr, n int, v Value) {
 		olds[i] = ov
 	}
 	for i, k := range cands {
+		if olds[i] == nil {
+			continue
+		}
 		nv := ex.st.Ite(ex.st.Eq(p.off, c64(k)), vt, olds[i])
 		if nv != olds[i] {
 			ex.storeCellC(o, k, n, nv)
